@@ -231,6 +231,59 @@ def builders_text():
         out.append('')
     return out
 
+# ---------------------------------------------------------------------------------------------------------------------------------
+# RESPONSE TABLE (C16 / C14 / C17 / C13): what `Command::response` does with the frame, per command with a typed reply.
+#   dec(path, props)      the body hands the frame to the decoder `path`, which is under contract in contracts/mpd_client/*.vspec:
+#                         resp_ok / resp_err ARE that decoder's postcondition (call_ensures of the fn item, for a frame with these fields)
+#   inline(ok, err, ...)  the body decodes in place; resp_ok / resp_err written here from the protocol reference
+#   (absent)              the decoder is iterator-adaptor code outside the verified text: `response` stays external_body, resp_ok/err = true
+RESP = {}
+def dec(path, props='C16'): return dict(kind='dec', path=path, props=props)
+def inline(ok, err, props='C16', extra=''): return dict(kind='inline', ok=ok, err=err, props=props, extra=extra)
+for s_ in ('ReplayGainStatus', 'Status', 'Stats'): RESP[s_] = dec('res::%s::from_frame' % s_)
+# the song listings and listplaylists: stated through the listing oracles of song.vspec / playlist.vspec directly (the same predicates the
+# decoders are proved against). call_ensures of these decoders cannot be used: they reach the trait impls TryFrom for Tag /
+# FromFieldValue for Timestamp, and a spec fn of a Command impl that depends on them puts those impls into one dependency cycle with
+# the Command impls (Verus then hides the impls' own spec members from their bodies: measured, Tag::try_from stopped verifying)
+SO = 'crate::responses::'
+for s_ in ('Queue', 'QueueRange'):
+    RESP[s_] = inline('%ssongs_of(cv) matches Some(vs) && %ssiq_views(x@) == vs' % (SO, SO), '%ssongs_of(cv) is None' % SO, props='C14')
+RESP['CurrentSong'] = inline('(match %srun(cv, cv.len()) { Some((b, done)) => done.len() == 0 ==> (if b.url.len() == 0 { x is None } else { x matches Some(s) && %ssiq_view(&s) == %ssong_of(b) }), None => false })' % (SO, SO, SO), '(match %srun(cv, cv.len()) { Some((b, done)) => done.len() != 0, None => true })' % SO, props='C14')
+for s_ in ('GetPlaylist', 'Find', 'ListAllIn'):
+    RESP[s_] = inline('%ssongs_of(cv) matches Some(vs) && %ssong_views(x@) == %sstrip_all(vs)' % (SO, SO, SO), '%ssongs_of(cv) is None' % SO, props='C14')
+RESP['GetPlaylists'] = inline('%spl_wf(cv) ==> (x@.len() * 2 == cv.len() && forall|i: int| 0 <= i < x@.len() ==> (#[trigger] x@[i]).name@ == cv[2 * i].1 && x@[i].last_modified.raw_view() == cv[2 * i + 1].1)' % SO, '!%spl_wf(cv)' % SO)
+RESP['Count'] = dec('res::Count::from_frame')
+for s_ in ('AlbumArt', 'AlbumArtEmbedded'): RESP[s_] = dec('res::AlbumArt::from_frame', 'C17 C16')
+RESP['StickerGet'] = dec('res::StickerGet::from_frame')
+# [C16 oracle] addid answers `Id: <song id>`; update / rescan answer `updating_db: <job id>`
+RESP['Add'] = inline('req::<u64>(cv, "Id"@) == Some(x.0)', 'req::<u64>(cv, "Id"@) is None',
+                     extra='  mutparam frame\n  tokens N17 ".map(SongId)" ".map(|vx_x: u64| -> (vx_r: SongId) ensures vx_r == SongId(vx_x) { SongId(vx_x) })"')
+for s_ in ('Update', 'Rescan'):
+    RESP[s_] = inline('req::<u64>(cv, "updating_db"@) == Some(x)', 'req::<u64>(cv, "updating_db"@) is None', extra='  mutparam frame')
+
+def resp_members(c):
+    """resp_ok / resp_err members + the directives of the `response` fn"""
+    sig_ok = 'spec fn resp_ok(&self, cv: Seq<(Seq<char>, Seq<char>)>, bin: Option<Seq<u8>>, x: Self::Response) -> bool'
+    sig_er = 'spec fn resp_err(&self, cv: Seq<(Seq<char>, Seq<char>)>, bin: Option<Seq<u8>>) -> bool'
+    k = c['key']
+    if c['unit']:
+        return ['    /// no typed reply: every frame is accepted', '    open %s { true }' % sig_ok, '    open %s { false }' % sig_er], None
+    r = RESP.get(c['struct'])
+    if r is None:
+        return ['    open %s { true }' % sig_ok, '    open %s { true }' % sig_er], \
+               'lift fn "<%s as Command>::response"\n  props\n  implicit\n  attr <<<\n    #[verifier::external_body]\n  >>>' % k
+    if r['kind'] == 'dec':
+        ok = 'exists|f: Frame| #![trigger f.cv()] f.cv() == cv && f.bin() == bin && call_ensures(%s, (f,), Ok::<Self::Response, TypedResponseError>(x))' % r['path']
+        er = 'exists|f: Frame, e: TypedResponseError| #![trigger call_ensures(%s, (f,), Err::<Self::Response, TypedResponseError>(e))] f.cv() == cv && f.bin() == bin && call_ensures(%s, (f,), Err::<Self::Response, TypedResponseError>(e))' % (r['path'], r['path'])
+        mem = ['    /// [%s] the reply is decoded by %s: what that decoder\'s contract says about a frame with these fields' % (r['props'].split()[0], r['path']),
+               '    closed %s { %s }' % (sig_ok, ok), '    closed %s { %s }' % (sig_er, er)]
+        fn = ('lift fn "<%s as Command>::response"\n  props %s C13\n  implicit C12\n  ret r\n  prologue <<<\n        let ghost vx_f = frame;\n  >>>\n'
+              '  tailbind r <<<\n        proof { assert(call_ensures(%s, (vx_f,), r)); assert(vx_f.cv() == vx_f.cv()); if r is Err { assert(call_ensures(%s, (vx_f,), Err::<Self::Response, TypedResponseError>(r->Err_0))); } }\n  >>>') % (k, r['props'], r['path'], r['path'])
+        return mem, fn
+    mem = ['    closed %s { %s }' % (sig_ok, r['ok']), '    closed %s { %s }' % (sig_er, r['err'])]
+    fn = 'lift fn "<%s as Command>::response"\n  props %s C13\n  implicit C12\n  ret r\n%s' % (k, r['props'], r['extra'])
+    return mem, fn
+
 def name_lemma(words):
     """proof that every literal command word is a name the builder accepts (letters / '_', first a letter, not a command_list word)"""
     body = ['    reveal_strlit("command_list");']
@@ -278,18 +331,14 @@ def main():
         vis = 'closed' if c['private'] else 'open'
         out.append('    %s spec fn cmd_spec(&self) -> Seq<u8> { %s }' % (vis, spec))
         out.append('    %s spec fn cmd_ok(&self) -> bool { %s }' % (vis, ok))
-        if c['unit']:
-            out.append('    open spec fn resp_spec(&self, cv: Seq<(Seq<char>, Seq<char>)>, bin: Option<Seq<u8>>) -> Option<()> { Some(()) }')
-        else:
-            out.append('    open spec fn resp_spec(&self, cv: Seq<(Seq<char>, Seq<char>)>, bin: Option<Seq<u8>>) -> Option<Self::Response> { arbitrary() }')
+        mem, respfn = resp_members(c)
+        out.extend(mem)
         out.append('  >>>')
         out.append('lift fn "<%s as Command>::command"' % k)
         out.append('  props C15\n  implicit C12 C15')
         if c['extra']: out.append(c['extra'].rstrip('\n'))
         out.append('  prologue <<<\n        proof { lemma_command_words(); lemma_keywords(); }\n        broadcast use dec_text_digits, lemma_num_arg_ok, lemma_range_arg_ok, lemma_por_arg_ok, lemma_dur_arg_ok;\n  >>>')
-        if not c['unit']:
-            out.append('lift fn "<%s as Command>::response"' % k)
-            out.append('  props\n  implicit\n  attr <<<\n    #[verifier::external_body]\n  >>>')
+        if respfn: out.append(respfn)
         out.append('')
     out.append('lift item struct MoveBuilder')
     out.extend(builders_text())
